@@ -32,10 +32,11 @@ VARIABLES
   g,        \* observer: identifiers in use, subscription identifiers handed out
   resumeQ,  \* packets a resumed session must still re-send before anything else
   supp,     \* digests of suppressed QoS 2 re-deliveries (for classification only)
-  secsAgo   \* recorded disconnection (C17): <<>> or <<seconds>>
+  secsAgo,  \* recorded disconnection (C17): <<>> or <<seconds>>
+  blockedOn \* <<>> or <<[wr, deliv]>>: the actor is suspended in the write of an acknowledgement
 
 vars == <<l, mode, verdict, cfg, S, msgQ, netIn, netEnd, wrm, ph, inCtx, retd, ops, sts, nh,
-          discW, g, resumeQ, supp, secsAgo>>
+          discW, g, resumeQ, supp, secsAgo, blockedOn>>
 
 Ln == Rec[l]
 Ev(e) == l <= N /\ Rec[l].e = e
@@ -121,7 +122,7 @@ HandlesAlive == nh > 0 \/ DOMAIN ops # {}
 
 Reset ==
   /\ Ev("reset")
-  /\ IF l = 1 THEN TRUE ELSE PrintT(<<"RUN", cfg.run, cfg.fam, verdict>>)
+  /\ IF l = 1 THEN TRUE ELSE PrintT("RUN " \o ToJson(<<cfg.run, cfg.fam, verdict>>))
   /\ Adv
   /\ mode' = "ok" /\ verdict' = <<>>
   /\ cfg' = Ln
@@ -130,15 +131,15 @@ Reset ==
   /\ ph' = "run" /\ inCtx' = "no" /\ retd' = <<>>
   /\ ops' = <<>> /\ sts' = <<>> /\ nh' = 1 /\ discW' = FALSE
   /\ g' = [ids |-> {}, sids |-> {}, nsub |-> 0]
-  /\ resumeQ' = <<>> /\ supp' = {} /\ secsAgo' = <<>>
+  /\ resumeQ' = <<>> /\ supp' = {} /\ secsAgo' = <<>> /\ blockedOn' = <<>>
 
 End ==
   /\ Ev("end")
-  /\ PrintT(<<"RUN", cfg.run, cfg.fam, verdict>>)
-  /\ PrintT(<<"DONE", l>>)
+  /\ PrintT("RUN " \o ToJson(<<cfg.run, cfg.fam, verdict>>))
+  /\ PrintT("DONE " \o ToString(l))
   /\ Adv
   /\ UNCHANGED <<mode, verdict, cfg, S, msgQ, netIn, netEnd, wrm, ph, inCtx, retd, ops, sts, nh,
-                 discW, g, resumeQ, supp, secsAgo>>
+                 discW, g, resumeQ, supp, secsAgo, blockedOn>>
 
 Ok == mode = "ok"
 
@@ -146,30 +147,30 @@ Call ==
   /\ Ok /\ Ev("call") /\ Adv
   /\ ops' = ops @@ (Ln.op :> NewOp(Ln))
   /\ UNCHANGED <<mode, verdict, cfg, S, msgQ, netIn, netEnd, wrm, ph, inCtx, retd, sts, nh, discW, g,
-                 resumeQ, supp, secsAgo>>
+                 resumeQ, supp, secsAgo, blockedOn>>
 
 Clone ==
   /\ Ok /\ Ev("clone") /\ Adv /\ nh' = nh + 1
   /\ UNCHANGED <<mode, verdict, cfg, S, msgQ, netIn, netEnd, wrm, ph, inCtx, retd, ops, sts, discW, g,
-                 resumeQ, supp, secsAgo>>
+                 resumeQ, supp, secsAgo, blockedOn>>
 
 Inject ==
   /\ Ok /\ Ev("inject") /\ Adv
   /\ netIn' = netIn \o Ln.pks
   /\ UNCHANGED <<mode, verdict, cfg, S, msgQ, netEnd, wrm, ph, inCtx, retd, ops, sts, nh, discW, g,
-                 resumeQ, supp, secsAgo>>
+                 resumeQ, supp, secsAgo, blockedOn>>
 
 NetEnd ==
   /\ Ok /\ (Ev("eof") \/ Ev("rderr")) /\ Adv
   /\ netEnd' = IF Ln.e = "eof" THEN "eof" ELSE "err"
   /\ UNCHANGED <<mode, verdict, cfg, S, msgQ, netIn, wrm, ph, inCtx, retd, ops, sts, nh, discW, g,
-                 resumeQ, supp, secsAgo>>
+                 resumeQ, supp, secsAgo, blockedOn>>
 
 WrMode ==
   /\ Ok /\ Ev("wrmode") /\ Adv
   /\ wrm' = Ln.m
   /\ UNCHANGED <<mode, verdict, cfg, S, msgQ, netIn, netEnd, ph, inCtx, retd, ops, sts, nh, discW, g,
-                 resumeQ, supp, secsAgo>>
+                 resumeQ, supp, secsAgo, blockedOn>>
 
 CancelWaiting(o) ==
   [k \in DOMAIN o |-> IF o[k].st # "built" /\ o[k].slot = <<>> THEN [o[k] EXCEPT !.slot = <<Cancelled>>] ELSE o[k]]
@@ -189,7 +190,7 @@ Drop ==
             /\ ops' = CancelWaiting(ops)
             /\ sts' = [k \in DOMAIN sts |-> [sts[k] EXCEPT !.tx = FALSE]]
             /\ UNCHANGED nh
-  /\ UNCHANGED <<mode, verdict, cfg, S, netIn, netEnd, wrm, inCtx, retd, discW, g, resumeQ, supp, secsAgo>>
+  /\ UNCHANGED <<mode, verdict, cfg, S, netIn, netEnd, wrm, inCtx, retd, discW, g, resumeQ, supp, secsAgo, blockedOn>>
 
 \* ------------------------------------------------------------------------------------------
 \* caller-side polls
@@ -221,7 +222,7 @@ PollOp ==
                   THEN (IF st.res.r = "ok" THEN [sts EXCEPT ![k].pollable = TRUE] ELSE DropKey(sts, k))
                   ELSE sts
   /\ Adv
-  /\ UNCHANGED <<mode, verdict, cfg, S, netIn, netEnd, wrm, ph, inCtx, retd, nh, discW, resumeQ, supp, secsAgo>>
+  /\ UNCHANGED <<mode, verdict, cfg, S, netIn, netEnd, wrm, ph, inCtx, retd, nh, discW, resumeQ, supp, secsAgo, blockedOn>>
 
 SameItem(a, b) == a.qos = b.qos /\ a.dup = b.dup /\ a.retain = b.retain /\ a.tag = b.tag /\ a.x = b.x
 
@@ -233,12 +234,13 @@ PollSt ==
         /\ Ln.res.r = StExpected(s)
         /\ (Ln.res.r = "item" => SameItem(Head(s.buf), Ln.res.pk))        \* C07: intact, in order
         /\ (Ln.woken = 1 \/ Ln.res.r = "pending")
-        /\ sts' = CASE Ln.res.r = "item" -> [sts EXCEPT ![Ln.k].buf = Tail(@)]
+        /\ sts' = CASE Ln.res.r = "item" -> [sts EXCEPT ![Ln.k].buf = Tail(@),
+                                                        ![Ln.k].seen2 = IF Ln.res.pk.qos = 2 THEN @ \cup {Ln.res.pk.x} ELSE @]
                     [] Ln.res.r = "end"  -> DropKey(sts, Ln.k)
                     [] OTHER -> sts
   /\ Adv
   /\ UNCHANGED <<mode, verdict, cfg, S, msgQ, netIn, netEnd, wrm, ph, inCtx, retd, ops, nh, discW, g,
-                 resumeQ, supp, secsAgo>>
+                 resumeQ, supp, secsAgo, blockedOn>>
 
 \* ------------------------------------------------------------------------------------------
 \* the context task
@@ -247,9 +249,9 @@ CtxBegin ==
   /\ Ok /\ Ev("ctxb") /\ inCtx = "no" /\ ph # "gone" /\ Adv
   /\ inCtx' = IF Ln.woken = 1 THEN "poll" ELSE "spur"
   /\ UNCHANGED <<mode, verdict, cfg, S, msgQ, netIn, netEnd, wrm, ph, retd, ops, sts, nh, discW, g,
-                 resumeQ, supp, secsAgo>>
+                 resumeQ, supp, secsAgo, blockedOn>>
 
-Stepping == Ok /\ inCtx = "poll" /\ ph = "run" /\ retd = <<>>
+Stepping == Ok /\ inCtx = "poll" /\ ph = "run" /\ retd = <<>> /\ blockedOn = <<>>
 
 CanWrite == wrm \in {"accept", "max"}
 WriteFails == wrm \in {"err", "zero"}
@@ -270,7 +272,7 @@ TakeResume ==                                                                  \
         /\ p.tag = e.tag /\ p.len = e.len /\ p.x = e.x
   /\ resumeQ' = Tail(resumeQ) /\ Adv
   /\ UNCHANGED <<mode, verdict, cfg, S, msgQ, netIn, netEnd, wrm, ph, inCtx, retd, ops, sts, nh, discW, g,
-                 supp, secsAgo>>
+                 supp, secsAgo, blockedOn>>
 
 TakeMsgSilent ==      \* a message that is refused (size, quota): nothing is written
   /\ Stepping /\ resumeQ = <<>> /\ msgQ # <<>> /\ ~discW
@@ -279,7 +281,7 @@ TakeMsgSilent ==      \* a message that is refused (size, quota): nothing is wri
          /\ out.wr = <<>>
          /\ ApplyOut([out EXCEPT !.S = [out.S EXCEPT !.quota = IF S.loose THEN S.quota ELSE @]], {}, {}, {})
   /\ msgQ' = Tail(msgQ)
-  /\ UNCHANGED <<l, mode, verdict, cfg, netIn, netEnd, wrm, ph, inCtx, sts, nh, discW, resumeQ, secsAgo>>
+  /\ UNCHANGED <<l, mode, verdict, cfg, netIn, netEnd, wrm, ph, inCtx, sts, nh, discW, resumeQ, secsAgo, blockedOn>>
 
 TakeMsgWrite ==       \* a message whose packet appears on the wire as the next line
   /\ Stepping /\ resumeQ = <<>> /\ msgQ # <<>> /\ CanWrite /\ ~discW
@@ -291,10 +293,10 @@ TakeMsgWrite ==       \* a message whose packet appears on the wire as the next 
          /\ ApplyOut(out, {}, IF NeedsId(Ln.pk) THEN {Ln.pk.id} ELSE {},
                      IF Ln.pk.t = "SUBSCRIBE" THEN {Ln.pk.sids[1]} ELSE {})
          /\ sts' = IF m.kind = "SUB" /\ m.op \in DOMAIN ops
-                   THEN sts @@ (m.op :> [buf |-> <<>>, tx |-> TRUE, pollable |-> FALSE]) ELSE sts
+                   THEN sts @@ (m.op :> [buf |-> <<>>, tx |-> TRUE, pollable |-> FALSE, seen2 |-> {}]) ELSE sts
          /\ discW' = (Ln.pk.t = "DISCONNECT")
   /\ msgQ' = Tail(msgQ) /\ Adv
-  /\ UNCHANGED <<mode, verdict, cfg, netIn, netEnd, wrm, ph, inCtx, nh, resumeQ, secsAgo>>
+  /\ UNCHANGED <<mode, verdict, cfg, netIn, netEnd, wrm, ph, inCtx, nh, resumeQ, secsAgo, blockedOn>>
 
 TakeMsgWriteFails ==  \* the transport refuses the write: run() must end with SocketClosed
   /\ Stepping /\ resumeQ = <<>> /\ msgQ # <<>> /\ WriteFails /\ ~discW
@@ -305,7 +307,7 @@ TakeMsgWriteFails ==  \* the transport refuses the write: run() must end with So
        /\ \/ ops' = ops            \* whether the caller is told before the context is dropped is not specified
           \/ (m.op \in DOMAIN ops /\ ops' = [ops EXCEPT ![m.op].slot = <<Cancelled>>])
   /\ msgQ' = Tail(msgQ)
-  /\ UNCHANGED <<l, mode, verdict, cfg, netIn, netEnd, wrm, ph, inCtx, sts, nh, discW, g, resumeQ, supp, secsAgo>>
+  /\ UNCHANGED <<l, mode, verdict, cfg, netIn, netEnd, wrm, ph, inCtx, sts, nh, discW, g, resumeQ, supp, secsAgo, blockedOn>>
 
 TakePktSilent ==
   /\ Stepping /\ resumeQ = <<>> /\ netIn # <<>>
@@ -316,7 +318,7 @@ TakePktSilent ==
               /\ ApplyOut([out EXCEPT !.ret = <<>>], {}, {}, {}))                               \* ignoring it is permitted too
        /\ sts' = ApplyDeliv(sts, out.deliv)
   /\ netIn' = Tail(netIn)
-  /\ UNCHANGED <<l, mode, verdict, cfg, msgQ, netEnd, wrm, ph, inCtx, nh, discW, resumeQ, secsAgo>>
+  /\ UNCHANGED <<l, mode, verdict, cfg, msgQ, netEnd, wrm, ph, inCtx, nh, discW, resumeQ, secsAgo, blockedOn>>
 
 TakePktWrite ==
   /\ Stepping /\ resumeQ = <<>> /\ netIn # <<>> /\ CanWrite /\ ~discW
@@ -328,7 +330,7 @@ TakePktWrite ==
        /\ ApplyOut(out, {}, {}, {})
        /\ sts' = ApplyDeliv(sts, out.deliv)
   /\ netIn' = Tail(netIn) /\ Adv
-  /\ UNCHANGED <<mode, verdict, cfg, msgQ, netEnd, wrm, ph, inCtx, nh, discW, resumeQ, secsAgo>>
+  /\ UNCHANGED <<mode, verdict, cfg, msgQ, netEnd, wrm, ph, inCtx, nh, discW, resumeQ, secsAgo, blockedOn>>
 
 TakePktWriteFails ==
   /\ Stepping /\ resumeQ = <<>> /\ netIn # <<>> /\ WriteFails
@@ -339,19 +341,48 @@ TakePktWriteFails ==
        /\ \/ sts' = ApplyDeliv(sts, out.deliv)       \* delivery before or after the failed acknowledgement
           \/ sts' = sts
   /\ netIn' = Tail(netIn)
-  /\ UNCHANGED <<l, mode, verdict, cfg, msgQ, netEnd, wrm, ph, inCtx, ops, nh, discW, g, resumeQ, supp, secsAgo>>
+  /\ UNCHANGED <<l, mode, verdict, cfg, msgQ, netEnd, wrm, ph, inCtx, ops, nh, discW, g, resumeQ, supp, secsAgo, blockedOn>>
+
+\* the writer is not accepting: the actor is suspended inside the write of the acknowledgement.  The
+\* message may have been handed to its stream before the write or be handed over after it.
+TakePktBlocked ==
+  /\ Stepping /\ resumeQ = <<>> /\ netIn # <<>> /\ wrm = "block" /\ ~discW
+  /\ LET p == Head(netIn) out == HandlePkt(S, p) IN
+       /\ out.wr # <<>>
+       /\ S' = out.S
+       /\ supp' = supp \cup {out.supp[i] : i \in 1..Len(out.supp)}
+       /\ \/ (sts' = ApplyDeliv(sts, out.deliv) /\ blockedOn' = <<[wr |-> out.wr[1], deliv |-> <<>>]>>)
+          \/ (sts' = sts /\ blockedOn' = <<[wr |-> out.wr[1], deliv |-> out.deliv]>>)
+  /\ netIn' = Tail(netIn)
+  /\ UNCHANGED <<l, mode, verdict, cfg, msgQ, netEnd, wrm, ph, inCtx, retd, ops, nh, discW, g, resumeQ, secsAgo>>
+
+TakeOwed ==
+  /\ Ok /\ inCtx = "poll" /\ ph = "run" /\ retd = <<>> /\ blockedOn # <<>> /\ CanWrite
+  /\ Ev("wr")
+  /\ Ln.pk.t = blockedOn[1].wr.t /\ Ln.pk.id = blockedOn[1].wr.id /\ ~IsFail(Ln.pk.rc)
+  /\ sts' = ApplyDeliv(sts, blockedOn[1].deliv)
+  /\ blockedOn' = <<>> /\ Adv
+  /\ UNCHANGED <<mode, verdict, cfg, S, msgQ, netIn, netEnd, wrm, ph, inCtx, retd, ops, nh, discW, g, resumeQ, supp, secsAgo>>
+
+TakeOwedFails ==
+  /\ Ok /\ inCtx = "poll" /\ ph = "run" /\ retd = <<>> /\ blockedOn # <<>> /\ WriteFails
+  /\ retd' = <<Res("ret", "SocketClosed", 0, "")>>
+  /\ S' = [S EXCEPT !.loose = TRUE]
+  /\ (sts' = ApplyDeliv(sts, blockedOn[1].deliv) \/ sts' = sts)
+  /\ blockedOn' = <<>>
+  /\ UNCHANGED <<l, mode, verdict, cfg, msgQ, netIn, netEnd, wrm, ph, inCtx, ops, nh, discW, g, resumeQ, supp, secsAgo>>
 
 TakeNetEnd ==                                                                       \* C13: SocketClosed
   /\ Stepping /\ netIn = <<>> /\ netEnd # "open"
   /\ retd' = <<Res("ret", "SocketClosed", 0, "")>>
   /\ UNCHANGED <<l, mode, verdict, cfg, S, msgQ, netIn, netEnd, wrm, ph, inCtx, ops, sts, nh, discW, g,
-                 resumeQ, supp, secsAgo>>
+                 resumeQ, supp, secsAgo, blockedOn>>
 
 TakeHandlesGone ==                                                                  \* C13: HandleClosed
   /\ Stepping /\ msgQ = <<>> /\ ~HandlesAlive
   /\ retd' = <<Res("ret", "HandleClosed", 0, "")>>
   /\ UNCHANGED <<l, mode, verdict, cfg, S, msgQ, netIn, netEnd, wrm, ph, inCtx, ops, sts, nh, discW, g,
-                 resumeQ, supp, secsAgo>>
+                 resumeQ, supp, secsAgo, blockedOn>>
 
 \* what is still to do needs a write that the transport is not accepting
 NeedsWrite ==
@@ -371,17 +402,17 @@ CtxEndPending ==
   /\ retd = <<>>
   /\ \/ ph = "ret"
      \/ (ph = "run" /\ NoWorkLeft /\ Ln.unread = 0)                                   \* C03: everything consumed
-     \/ (ph = "run" /\ wrm = "block" /\ NeedsWrite)
+     \/ (ph = "run" /\ wrm = "block" /\ (NeedsWrite \/ blockedOn # <<>>))
      \/ (ph = "run" /\ discW)       \* after the user's DISCONNECT nothing else is required of the actor
   /\ inCtx' = "no" /\ Adv
   /\ UNCHANGED <<mode, verdict, cfg, S, msgQ, netIn, netEnd, wrm, ph, retd, ops, sts, nh, discW, g,
-                 resumeQ, supp, secsAgo>>
+                 resumeQ, supp, secsAgo, blockedOn>>
 
 CtxEndReturn ==
   /\ Ok /\ Ev("ctxe") /\ inCtx = "poll" /\ ph = "run" /\ Ln.res.r = "ret"
   /\ retd # <<>> /\ RetMatches(retd[1], Ln.res)
   /\ inCtx' = "no" /\ ph' = "ret" /\ retd' = <<>> /\ Adv
-  /\ UNCHANGED <<mode, verdict, cfg, S, msgQ, netIn, netEnd, wrm, ops, sts, nh, discW, g, resumeQ, supp, secsAgo>>
+  /\ UNCHANGED <<mode, verdict, cfg, S, msgQ, netIn, netEnd, wrm, ops, sts, nh, discW, g, resumeQ, supp, secsAgo, blockedOn>>
 
 \* ------------------------------------------------------------------------------------------
 \* quiescent points: the driver has run every woken task until none was left, then polled every
@@ -391,10 +422,10 @@ Quiescent ==
   /\ Ok /\ Ev("quiescent") /\ inCtx = "no"
   /\ \A k \in DOMAIN ops : ops[k].st = "built" \/ ops[k].slot = <<>>               \* C05 / C14: nothing withheld
   /\ \A k \in DOMAIN sts : sts[k].pollable => (sts[k].buf = <<>> /\ sts[k].tx)     \* C07 / C14
-  /\ (ph = "run" /\ wrm # "block" /\ ~discW) => (NoWorkLeft /\ Ln.unread = 0)       \* C03
+  /\ (ph = "run" /\ wrm # "block" /\ ~discW) => (NoWorkLeft /\ blockedOn = <<>> /\ Ln.unread = 0)  \* C03
   /\ Adv
   /\ UNCHANGED <<mode, verdict, cfg, S, msgQ, netIn, netEnd, wrm, ph, inCtx, retd, ops, sts, nh, discW, g,
-                 resumeQ, supp, secsAgo>>
+                 resumeQ, supp, secsAgo, blockedOn>>
 
 \* ------------------------------------------------------------------------------------------
 \* session resumption (C17)
@@ -403,7 +434,7 @@ MarkDisc ==
   /\ Ok /\ Ev("markdisc") /\ ph = "ret" /\ Adv
   /\ secsAgo' = <<Ln.secs>>
   /\ UNCHANGED <<mode, verdict, cfg, S, msgQ, netIn, netEnd, wrm, ph, inCtx, retd, ops, sts, nh, discW, g,
-                 resumeQ, supp>>
+                 resumeQ, supp, blockedOn>>
 
 CancelAwaiting(o, aw) ==
   [k \in DOMAIN o |-> IF \E i \in 1..Len(aw) : aw[i].op = k THEN [o[k] EXCEPT !.slot = <<Cancelled>>] ELSE o[k]]
@@ -422,18 +453,20 @@ Reconnect ==
   /\ ph' = "run" /\ netIn' = <<>> /\ netEnd' = "open" /\ wrm' = "accept" /\ retd' = <<>> /\ secsAgo' = <<>>
   /\ discW' = FALSE
   /\ cfg' = [cfg EXCEPT !.R = Ln.R, !.M = Ln.M, !.sei = Ln.sei]
+  /\ blockedOn' = <<>>
   /\ UNCHANGED <<mode, verdict, msgQ, inCtx, nh, supp>>
 
 \* informational lines that need no reference step
 Info ==
   /\ Ok /\ l <= N /\ Ln.e \in {"rd", "wrpart", "wrpending", "wrerr", "note"} /\ Adv
   /\ UNCHANGED <<mode, verdict, cfg, S, msgQ, netIn, netEnd, wrm, ph, inCtx, retd, ops, sts, nh, discW, g,
-                 resumeQ, supp, secsAgo>>
+                 resumeQ, supp, secsAgo, blockedOn>>
 
 Normal ==
   \/ Call \/ Clone \/ Inject \/ NetEnd \/ WrMode \/ Drop \/ PollOp \/ PollSt
   \/ CtxBegin \/ TakeResume \/ TakeMsgSilent \/ TakeMsgWrite \/ TakeMsgWriteFails
-  \/ TakePktSilent \/ TakePktWrite \/ TakePktWriteFails \/ TakeNetEnd \/ TakeHandlesGone
+  \/ TakePktSilent \/ TakePktWrite \/ TakePktWriteFails \/ TakePktBlocked \/ TakeOwed \/ TakeOwedFails
+  \/ TakeNetEnd \/ TakeHandlesGone
   \/ CtxEndPending \/ CtxEndReturn \/ Quiescent \/ MarkDisc \/ Reconnect \/ Info
 
 \* ------------------------------------------------------------------------------------------
@@ -447,12 +480,22 @@ NextPollOf(k, i) ==       \* the next result reported for operation k at or afte
 
 V(prop, clause, detail) == <<prop, clause, l, detail>>
 
+HeadNotWritten ==
+  LET m == Head(msgQ) nx == NextPollOf(m.op, l) IN
+    IF nx.kind = "MaximumPacketSizeExceeded" THEN V("C12", "rejected-under-limit", <<m.pk.t, m.pk.len, S.M>>)
+    ELSE IF nx.kind = "QuotaExceeded" THEN V("C10", "rejected-under-quota", <<S.quota, S.R>>)
+    ELSE IF m.pk.t \in {"PUBLISH", "PUBREL"} THEN V("C06", "request-not-written", <<m.pk.t, nx.kind>>)
+    ELSE V("C05", "request-not-written", <<m.pk.t, nx.kind>>)
+
 ClassifyWr(pk) ==
   IF ph # "run" \/ discW THEN V("C13", "write-after-end", pk.t)
   ELSE IF pk.t = "MALFORMED" THEN V("C01", "malformed-packet", pk.x)
   ELSE IF resumeQ # <<>> THEN V("C17", "resume-mismatch", <<pk.t, pk.id, pk.dup, Head(resumeQ).t, Head(resumeQ).id>>)
   ELSE IF pk.t \in {"PUBACK", "PUBREC", "PUBCOMP"} THEN
          V("C08", "unexpected-ack", <<pk.t, pk.id, IF netIn # <<>> THEN <<Head(netIn).t, Head(netIn).id, Head(netIn).qos>> ELSE <<>> >>)
+  ELSE IF msgQ # <<>> /\ (Head(msgQ).pk.t # pk.t \/ (pk.t = "PUBLISH" /\ Head(msgQ).pk.tag # pk.tag))
+          /\ \E i \in 2..Len(msgQ) : msgQ[i].pk.t = pk.t /\ (pk.t = "PUBLISH" => msgQ[i].pk.tag = pk.tag)
+       THEN HeadNotWritten          \* a later request was written: the head of the queue was passed over
   ELSE IF msgQ = <<>> \/ Head(msgQ).pk.t # pk.t THEN
          (IF pk.t \in {"PUBLISH", "PUBREL"} THEN V("C06", "unsolicited-" \o pk.t, <<pk.id, pk.dup>>)
           ELSE V("C05", "unsolicited-request", pk.t))
@@ -468,15 +511,11 @@ ClassifyWr(pk) ==
        ELSE V("C06", "request-mismatch", pk.t)
 
 ExpectedWriteMissing ==
-  IF resumeQ # <<>> THEN V("C17", "resume-missing", <<Head(resumeQ).t, Head(resumeQ).id>>)
+  IF blockedOn # <<>> THEN V("C08", "ack-missing", <<blockedOn[1].wr.t, blockedOn[1].wr.id>>)
+  ELSE IF resumeQ # <<>> THEN V("C17", "resume-missing", <<Head(resumeQ).t, Head(resumeQ).id>>)
   ELSE IF netIn # <<>> /\ HandlePkt(S, Head(netIn)).wr # <<>> /\ (msgQ = <<>> \/ Ln.unread = 0)
        THEN V("C08", "ack-missing", <<Head(netIn).t, Head(netIn).qos, Head(netIn).id, Len(Head(netIn).sids)>>)
-  ELSE IF msgQ # <<>> THEN
-       LET m == Head(msgQ) nx == NextPollOf(m.op, l) IN
-         IF nx.kind = "MaximumPacketSizeExceeded" THEN V("C12", "rejected-under-limit", <<m.pk.t, m.pk.len, S.M>>)
-         ELSE IF nx.kind = "QuotaExceeded" THEN V("C10", "rejected-under-quota", <<S.quota, S.R>>)
-         ELSE IF m.pk.t \in {"PUBLISH", "PUBREL"} THEN V("C06", "request-not-written", <<m.pk.t, nx.kind>>)
-         ELSE V("C05", "request-not-written", <<m.pk.t, nx.kind>>)
+  ELSE IF msgQ # <<>> THEN HeadNotWritten
   ELSE V("C03", "stalled", <<Ln.unread>>)
 
 ClassifyCtxEnd(res) ==
@@ -520,7 +559,8 @@ ClassifyPollSt ==
     IF got.r = "panic" THEN V("C04", "panic-in-stream", Ln.k)
     ELSE IF got.r = want /\ (want # "item" \/ SameItem(Head(s.buf), got.pk)) /\ Ln.woken = 0
          THEN V("C16", "progress-without-wakeup", <<"stream", Ln.k>>)
-    ELSE IF got.r = "item" /\ got.pk.x \in supp THEN V("C09", "redelivered", <<got.pk.tag>>)
+    ELSE IF got.r = "item" /\ got.pk.qos = 2 /\ got.pk.x \in supp /\ got.pk.x \in s.seen2
+         THEN V("C09", "redelivered", <<got.pk.tag>>)        \* this stream has yielded that very message before
     ELSE IF want = "end" /\ got.r = "pending" THEN V("C14", "stream-hangs-after-context-gone", Ln.k)
     ELSE IF want = "pending" /\ got.r = "end" THEN V("C07", "ended-early", Ln.k)
     ELSE IF want = "item" /\ got.r = "item" THEN V("C07", "wrong-item", <<Head(s.buf).tag, got.pk.tag, Head(s.buf).x, got.pk.x>>)
@@ -549,19 +589,19 @@ Diverge ==
   /\ ~ENABLED Normal
   /\ verdict' = Classify
   /\ mode' = "tainted"
-  /\ UNCHANGED <<l, cfg, S, msgQ, netIn, netEnd, wrm, ph, inCtx, retd, ops, sts, nh, discW, g, resumeQ, supp, secsAgo>>
+  /\ UNCHANGED <<l, cfg, S, msgQ, netIn, netEnd, wrm, ph, inCtx, retd, ops, sts, nh, discW, g, resumeQ, supp, secsAgo, blockedOn>>
 
 Skip ==
   /\ mode = "tainted" /\ l <= N /\ Ln.e \notin {"reset", "end"} /\ Adv
   /\ UNCHANGED <<mode, verdict, cfg, S, msgQ, netIn, netEnd, wrm, ph, inCtx, retd, ops, sts, nh, discW, g,
-                 resumeQ, supp, secsAgo>>
+                 resumeQ, supp, secsAgo, blockedOn>>
 
 Init ==
   /\ l = 1 /\ mode = "ok" /\ verdict = <<>>
   /\ cfg = [run |-> 0, fam |-> ""]
   /\ S = InitS(1, 0) /\ msgQ = <<>> /\ netIn = <<>> /\ netEnd = "open" /\ wrm = "accept"
   /\ ph = "run" /\ inCtx = "no" /\ retd = <<>> /\ ops = <<>> /\ sts = <<>> /\ nh = 1 /\ discW = FALSE
-  /\ g = [ids |-> {}, sids |-> {}, nsub |-> 0] /\ resumeQ = <<>> /\ supp = {} /\ secsAgo = <<>>
+  /\ g = [ids |-> {}, sids |-> {}, nsub |-> 0] /\ resumeQ = <<>> /\ supp = {} /\ secsAgo = <<>> /\ blockedOn = <<>>
 
 Next == Reset \/ End \/ Normal \/ Diverge \/ Skip
 
